@@ -1,16 +1,18 @@
 (* C07 -- a join equals filter_tables followed by apply_matcher. *)
-From Coq Require Import ZArith Bool List String.
+From Coq Require Import ZArith Bool List String SpecFloat Lia.
 From SSJ Require Import F64 PyNum Filters Joins Api JoinSpec MetaSpec LawsBase LawsScore LawsSpec Laws LawsPipe LawsArith
      ApiFilterBase ApiFilterEdit ApiFilterClosed.
 Import ListNotations.
 Open Scope string_scope.
 Open Scope Z_scope.
 
-(* set-similarity measures: if the pipeline's result P is sound and complete w.r.t. the RAW score
-   (what apply_matcher with the measure's similarity function yields on the candidates of a filter
+(* set-similarity measures: if the pipeline's result P is sound and complete w.r.t. the score the
+   MATCHER computes (matcher_raw_score: the measure's get_raw_score on the tokenizer's lists, whose
+   exact-match shortcut compares LISTS; what apply_matcher yields on the candidates of a filter
    that keeps every qualifying pair: C04 / C05) and the join's result J satisfies the single-call
    specs (C01 / C02 / C08), then P and J have the same key pairs and the same scores after rounding
-   to 4 decimals, empty-empty and gray pairs aside *)
+   to 4 decimals, empty-empty and gray pairs aside (gray = raw and rounded score on different sides
+   of the threshold, for the join's raw score: pair_gray, or the matcher's: pair_gray_pipe) *)
 Theorem C07_set_measures :
   forall c m obsJ obsP, j_entry c = EJoin m -> set_measure m = true -> j_with_score c = true ->
   pipeline_sound_raw c obsP = true -> pipeline_complete_raw c obsP = true ->
@@ -58,6 +60,67 @@ Theorem C07_model_pipeline_total :
   Z.of_nat (List.length (j_L c)) * Z.of_nat (List.length (j_R c)) < 2 ^ 31 ->
   exists outP, pipeline_model c k m = Some outP.
 Proof. exact C07_pipeline_model_total. Qed.
+
+(* ------------------------------------------------------------------ the order-sensitive shortcut *)
+(* COSINE, ">=", t = 1.0, left value "p q1" -> tokens [1; 2], right value "q1 p" -> tokens [2; 1].
+   The join passes both lists sorted by the global token ordering: equal lists, exact-match
+   shortcut, raw 1.0, reported 1.0 >= 1.0: pair reported.  apply_matcher passes the tokenizer's
+   lists: different lists, formula 2 / (sqrt 2 * sqrt 2) = 0.9999999999999998 < 1.0: pair dropped.
+   Raw (matcher) and rounded score are on different sides of t: the pair is excluded by C07. *)
+From SSJ Require Import Measures.
+Definition c07_gray_case : jcase :=
+  {| j_entry := EJoin "COSINE"; j_t := PFloat f_one; j_q := 0; j_op := ">="; j_allow_empty := true;
+     j_allow_missing := false; j_with_score := true; j_njobs := 1; j_cpus := 4;
+     j_L := [(1, Some ([], [1; 2]))]; j_R := [(7, Some ([], [2; 1]))] |}.
+
+Example C07_pipe_gray_witness :
+  pair_gray_pipe c07_gray_case (1, Some ([], [1; 2])) (7, Some ([], [2; 1])) = true /\
+  pair_gray c07_gray_case (1, Some ([], [1; 2])) (7, Some ([], [2; 1])) = false /\
+  raw_score "COSINE" [1; 2] [2; 1] = PFloat f_one /\
+  reported_score "COSINE" [1; 2] [2; 1] = PFloat f_one /\
+  matcher_raw_score "COSINE" [1; 2] [2; 1] = PFloat (sim_formula "COSINE" 2 2 2) /\
+  fltb (sim_formula "COSINE" 2 2 2) f_one = true /\
+  matcher_raw_score "COSINE" [1; 2] [1; 2] = PFloat f_one.
+Proof. vm_compute. repeat split; reflexivity. Qed.
+
+(* the observed results of the false alarm satisfy the property; without the second exclusion
+   (the previous pipeline_spec) they would not *)
+Example C07_pipe_gray_spec :
+  pipeline_spec c07_gray_case [(1, 7, PFloat f_one)] [] = true /\
+  multiset_eqb (round_rows (keep_rows [c07_gray_case] [(1, 7, PFloat f_one)]))
+               (round_rows (keep_rows [c07_gray_case] [])) = false.
+Proof. vm_compute. split; reflexivity. Qed.
+
+(* and the MODEL reproduces the two observed results *)
+Example C07_pipe_gray_model :
+  api_join c07_gray_case = Some [(1, 7, PFloat f_one)] /\
+  pipeline_model c07_gray_case KSize "COSINE" = Some [] /\
+  pipeline_model c07_gray_case KPrefix "COSINE" = Some [] /\
+  pipeline_model c07_gray_case KPosition "COSINE" = Some [].
+Proof. vm_compute. repeat split; reflexivity. Qed.
+
+(* the witness lies inside the envelope of C07_model_pipeline_equals_join (non-vacuity) *)
+Example c07_gray_case_valid : valid_join_case c07_gray_case.
+Proof.
+  split.
+  { unfold tables_ok, c07_gray_case. cbn [j_L j_R j_cpus].
+    split; [nodup_small|]. split; [nodup_small|].
+    split. { intros r [<-|[]] Hp. split; [cbn [toks_of snd]; nodup_small | vm_compute; reflexivity]. }
+    split. { intros r [<-|[]] Hp. split; [cbn [toks_of snd]; nodup_small | vm_compute; reflexivity]. }
+    split; [lia|]. split; vm_compute; reflexivity. }
+  split; [left; reflexivity|].
+  exists "COSINE". split; [reflexivity|]. left. split; [reflexivity|].
+  exists f_one. split; [reflexivity | vm_compute; reflexivity].
+Qed.
+
+Example C07_pipe_gray_theorem : forall k outJ outP, k3 k ->
+  api_join c07_gray_case = Some outJ -> pipeline_model c07_gray_case k "COSINE" = Some outP ->
+  pipeline_spec c07_gray_case outJ outP = true.
+Proof.
+  intros k outJ outP Hk HJ HP.
+  apply (C07_model_pipeline_equals_join c07_gray_case k "COSINE" outJ outP c07_gray_case_valid);
+    try reflexivity; try assumption. left; reflexivity.
+Qed.
 
 (* tie of candidate generation to the source: index/position_index.py (build) and
    filter/position_filter.py (find_candidates), as REGENERATED on this run (Gen/IndexGen.v), compute
